@@ -284,6 +284,22 @@ def case_st(draw, tier, routes=ALL_ROUTES, mutate=False):
     return case
 
 
+@st.composite
+def file_search_case(draw, tier):
+    """memory-mapped (whole file, immutable class) objects holding byte runs, searched with whole-byte patterns cut from them"""
+    alphabet = draw(st.lists(bits_of_len(8), min_size=1, max_size=2))
+    content = ''.join(draw(st.lists(st.sampled_from(alphabet), min_size=2, max_size=30)))
+    n = len(content)
+    k = 8 * draw(st.integers(0, n // 8 - 1))
+    pat = content[k:k + 8 * draw(st.integers(1, 3))]
+    args = {'content': content, 'pat': pat, 'same': draw(bits_of_len(n)), 'k': draw(st.integers(0, 1000)), 'i': 0, 's0': None, 's1': None, 's2': None,
+            'start': draw(st.sampled_from([None, None, 0, 8, 3, 16])), 'end': draw(st.sampled_from([None, None, n, n - 8, n - 3])), 'ba': draw(st.sampled_from([True, True, None, False]))}
+    cls = draw(st.sampled_from(['Bits', 'ConstBitStream', 'Bits', 'ConstBitStream', 'BitArray']))
+    op = draw(st.sampled_from(['findall', 'findall', 'find', 'rfind', 'split', 'contains', 'count', 'startswith', 'endswith', 'cut'] + (['readto', 'find_moves'] if cls == 'ConstBitStream' else [])))
+    return {'cls': cls, 'route': draw(st.sampled_from(FILE_FULL + ['file_len_whole', 'file_offset_nolen'])), 'salt': draw(st.integers(0, 60)), 'args': args,
+            'lsb0': draw(st.sampled_from([False, False, False, True])), 'op': op}
+
+
 def apply_op(o, case):
     if case['op'].startswith('mutate:'):
         op = case['mop']
@@ -375,5 +391,6 @@ SUBCHECKS = [
     sub('file_offset', FILE_OFFSET, 5000, 80000),
     sub('file_length_limited', FILE_LIMITED, 6000, 100000),
     sub('mutable_from_route', ALL_ROUTES, 8000, 120000, mutate=True),
+    Sub('C08.file_search', run, strategy=file_search_case, examples={'quick': 2500, 'thorough': 40000}, ambient=('bytealigned',)),
     Sub('C08.file_large', run, strategy=big_case_st, examples={'quick': 400, 'thorough': 6000}),
 ]
